@@ -131,6 +131,10 @@ fn observe(st: &State, v: &Common, dom: u32, out: &mut Vec<u128>) {
       a.push(out);
       out.push(RelIndexRead::is_empty(&ind) as u128);
    }
+   out.push(crate::le_flag(|| st.full.to_rel_index(v).len_estimate()));
+   out.push(crate::le_flag(|| st.none.to_rel_index(v).len_estimate()));
+   out.push(crate::le_flag(|| st.i0.to_rel_index(v).len_estimate()));
+   out.push(crate::le_flag(|| st.i1.to_rel_index(v).len_estimate()));
 }
 
 pub fn step(st: &mut State, dom: u32, op: &str) -> Vec<u128> {
